@@ -72,7 +72,7 @@ Record hdr := mkh { h_fin : bool; h_r1 : bool; h_r2 : bool; h_r3 : bool; h_op : 
 
 Inductive pk :=
 | PNeed                (* fewer than two bytes *)
-| PUnknown             (* extended length bytes incomplete: bodyLen = -1 in the code *)
+| PUnknown (op : N)    (* extended length bytes incomplete: bodyLen = -1 in the code *)
 | PBad                 (* 64-bit length with the top bit set *)
 | PKnown (h : hdr).
 
@@ -84,13 +84,13 @@ Definition peek (b : bytes) : pk :=
       if len7 =? 126 then
         match t with
         | l0 :: l1 :: _ => PKnown (mk 4%nat (be_val [l0; l1]))
-        | _ => PUnknown
+        | _ => PUnknown (b0 mod 16)
         end
       else if len7 =? 127 then
         let l8 := firstn 8 t in
         if Nat.eqb (length l8) 8 then
           let v := be_val l8 in if LIM63 <=? v then PBad else PKnown (mk 10%nat v)
-        else PUnknown
+        else PUnknown (b0 mod 16)
       else PKnown (mk 2%nat len7)
   | _ => PNeed
   end.
@@ -263,7 +263,8 @@ Definition write_message (cfg : config) (st : state) (o : oracle) (mt : N) (data
         | (None, o') => (o', data, false)
         end
       else (o, data, false) in
-    write_frames cfg st o1 mt true comp (chunks_of (frame_limit cfg) data1).
+    (* control messages (at most 125 bytes) are never split *)
+    write_frames cfg st o1 mt true comp (if is_control mt then [data1] else chunks_of (frame_limit cfg) data1).
 
 (* ---------- receiver ---------- *)
 Definition too_large (limit x : N) : bool := (0 <? limit) && (limit <? x).
@@ -280,9 +281,11 @@ Definition next_frame (cfg : config) (st : state) : nf :=
   match peek (cache st) with
   | PNeed => NFNeed
   | PBad => NFErr EFrag
-  | PUnknown => if too_large_unknown (msg_limit cfg) (msg_len st) then NFErr ETooLarge else NFNeed
+  | PUnknown op =>
+      if is_data op && too_large_unknown (msg_limit cfg) (msg_len st) then NFErr ETooLarge else NFNeed
   | PKnown h =>
-      if too_large_wrap (msg_limit cfg) (msg_len st + h_n h) then NFErr ETooLarge
+      (* only the frames of a data message count against the message length limit *)
+      if is_data (h_op h) && too_large_wrap (msg_limit cfg) (msg_len st + h_n h) then NFErr ETooLarge
       else if (125 <? h_n h) && is_control (h_op h) then NFErr ECtlBig
       else if LIM63 <=? frame_total h then NFErr EPanic      (* int64 overflow, slice bounds panic, recovered *)
       else if has_len (cache st) (frame_total h) then
